@@ -210,7 +210,59 @@ def loop_check(job, a_gb, log):
                             "shifted" % (f, counts.get(f, 0), n))
 
 
-def pipeline(job, trace_props=None, tag=""):
+LOCALS_BASELINE = os.path.join(CONTRACTS, "locals_baseline.json")
+
+
+def function_locals(gb, funcs):
+    """names of the source-level locals and parameters of the given functions in a goto binary"""
+    rc, text, _ = run(["goto-instrument", "--show-symbol-table", gb], 120)
+    out = {f: [] for f in funcs}
+    for m in re.finditer(r"^Symbol\.+: (\S+)$", text or "", re.M):
+        n = m.group(1)
+        f = n.split("::")[0]
+        if f in out and "::" in n and "$" not in n:
+            out[f].append(n)
+    return {f: sorted(v) for f, v in out.items()}
+
+
+def remap_renamed_locals(job, a_gb, log):
+    """A loop contract names locals of /repo code through symbol_map.  If exactly one local of the function was renamed
+    (baseline minus current = one name, current minus baseline = one name) the map is re-pointed at the new name; the
+    caller falls back to the bounded search if anything then fails.  Returns (loops, note) or (None, None)."""
+    if not isinstance(job.loops, dict) or not os.path.exists(LOCALS_BASELINE):
+        return None, None
+    base = json.load(open(LOCALS_BASELINE)).get(job.name)
+    if not base:
+        return None, None
+    cur = function_locals(a_gb, list(job.loops.keys()))
+    ren = {}
+    for f in job.loops:
+        b, c = set(base.get(f, [])), set(cur.get(f, []))
+        gone, new = sorted(b - c), sorted(c - b)
+        if not gone and not new:
+            continue
+        if len(gone) == 1 and len(new) == 1 and gone[0].rsplit("::", 1)[0] == new[0].rsplit("::", 1)[0]:
+            ren[gone[0]] = new[0]
+        else:
+            return None, None
+    if not ren:
+        return None, None
+    loops = {}
+    for f, es in job.loops.items():
+        loops[f] = []
+        for e in es:
+            e = dict(e)
+            sm = e.get("symbol_map", "")
+            for old_n, new_n in ren.items():
+                sm = ";".join((x.split(",")[0] + "," + new_n) if x.split(",")[-1] == old_n else x for x in sm.split(";") if x)
+            e["symbol_map"] = sm
+            loops[f].append(e)
+    note = "; ".join("%s -> %s" % kv for kv in ren.items())
+    log.write("loop-contract locals re-pointed after a pure rename: %s\n" % note)
+    return loops, note
+
+
+def pipeline(job, trace_props=None, tag="", force_degraded=None):
     """returns (list[Obligation], info dict); raises Undecided"""
     wd = os.path.join(WORK, job.name + tag)
     shutil.rmtree(wd, ignore_errors=True)
@@ -229,15 +281,22 @@ def pipeline(job, trace_props=None, tag=""):
         if rc != 0 or not os.path.exists(a_gb):
             raise Undecided("goto-cc failed: " + text[-600:])
         info["stages"]["goto-cc"] = round(dt, 2)
-        degraded = None
+        degraded = force_degraded
+        loops_now, renamed = (None, None)
         try:
-            loop_check(job, a_gb, log)
+            if not degraded:
+                loop_check(job, a_gb, log)
+                loops_now, renamed = remap_renamed_locals(job, a_gb, log)
+                if renamed:
+                    info["renamed_locals"] = renamed
         except Undecided as e:
             # the loop structure of a function under loop contract changed: the proof cannot be attempted.  Fall back
             # to a bounded search for counterexamples WITHOUT loop contracts: a failure found there is a real
             # counterexample of the (changed) code; finding none decides nothing (exit 2).
             degraded = str(e)
             info["degraded"] = degraded
+        if force_degraded:
+            info["degraded"] = force_degraded
         cur = a_gb
         if job.replace_calls:
             c_gb = os.path.join(wd, "c.gb")
@@ -269,7 +328,7 @@ def pipeline(job, trace_props=None, tag=""):
                 if isinstance(job.loops, dict):
                     # {function: [ {loop_id, assigns, invariants, decreases?, symbol_map?}, ... ]}
                     doc = {"functions": [{f: [dict((k, v) for k, v in e.items() if v not in ("", None)) for e in es]}
-                                         for f, es in job.loops.items()]}
+                                         for f, es in (loops_now or job.loops).items()]}
                     json.dump(doc, open(lf, "w"), indent=1)
                 else:
                     shutil.copy(os.path.join(CONTRACTS, job.loops), lf)
@@ -376,6 +435,11 @@ def pipeline(job, trace_props=None, tag=""):
         if vc:
             info["sat_vars"], info["sat_clauses"] = max(int(v) for v, _ in vc), max(int(c) for _, c in vc)
         info["wall"] = round(time.time() - t0, 2)
+        skip_rx = [rx for (_, rx, _) in parse_benign()] + [rx for (_, rx, _) in parse_known()]
+        if renamed and any(o.status != "SUCCESS" and CANARY not in o.desc and not any(rx.search(o.key()) for rx in skip_rx) for o in obls):
+            log.write("obligations fail after re-pointing renamed locals: falling back to the bounded search\n")
+            log.close()
+            return pipeline(job, trace_props, tag, force_degraded="a local named in a loop contract was renamed (%s) and the proof did not go through with the re-pointed contract" % renamed)
         return obls, info
     finally:
         log.close()
